@@ -138,7 +138,7 @@ class Spec(DiffSpec):
         for i in range(n):
             s = base_seed * 1000003 + 40000000 + i
             kind = "a" if i % 2 == 0 else "b"
-            prof = {"n_green": (0, 2), "n_red": (0, 2), "tight_links": 0.15, "push": 0.15, "avoid": ["listen_on_ports"], "nmne": 0.6}
+            prof = {"n_green": (0, 2), "n_red": (0, 2), "tight_links": 0.15, "push": 0.15, "nmne": 0.6}
             c = {"seed": s, "profile": prof, "monitors": [], "kind": kind, "first_reset_seed": s % 1000, "op_mix": {"step": 0.8, "reset": 0.05, "fault": 0.15}, "record_state": True}
             if kind == "a":
                 h = 25 + (i % 3) * 12
